@@ -1,1 +1,96 @@
-//! Hooks for property C07 (empty unless needed).
+//! Hooks for properties C07/C08: a websocket client end over an in-memory stream that runs the
+//! real client side of the relay handshake, to drive `RelayService::verif_accept`.
+use std::{
+    pin::Pin,
+    task::{Context, Poll},
+};
+
+use bytes::Bytes;
+use iroh_base::SecretKey;
+use n0_future::{SinkExt, StreamExt};
+use tokio::io::{AsyncRead, AsyncWrite, DuplexStream, ReadBuf};
+
+use crate::{
+    ExportKeyingMaterial,
+    protos::{
+        handshake,
+        relay::MAX_FRAME_SIZE,
+        streams::{StreamError, WsBytesFramed},
+    },
+};
+
+/// In-memory IO without TLS (no keying material).
+#[derive(Debug)]
+pub struct PlainIo(pub DuplexStream);
+
+impl ExportKeyingMaterial for PlainIo {
+    fn export_keying_material<T: AsMut<[u8]>>(
+        &self,
+        _output: T,
+        _label: &[u8],
+        _context: Option<&[u8]>,
+    ) -> Option<T> {
+        None
+    }
+}
+
+impl AsyncRead for PlainIo {
+    fn poll_read(
+        mut self: Pin<&mut Self>,
+        cx: &mut Context<'_>,
+        buf: &mut ReadBuf<'_>,
+    ) -> Poll<std::io::Result<()>> {
+        Pin::new(&mut self.0).poll_read(cx, buf)
+    }
+}
+
+impl AsyncWrite for PlainIo {
+    fn poll_write(
+        mut self: Pin<&mut Self>,
+        cx: &mut Context<'_>,
+        buf: &[u8],
+    ) -> Poll<std::io::Result<usize>> {
+        Pin::new(&mut self.0).poll_write(cx, buf)
+    }
+    fn poll_flush(mut self: Pin<&mut Self>, cx: &mut Context<'_>) -> Poll<std::io::Result<()>> {
+        Pin::new(&mut self.0).poll_flush(cx)
+    }
+    fn poll_shutdown(mut self: Pin<&mut Self>, cx: &mut Context<'_>) -> Poll<std::io::Result<()>> {
+        Pin::new(&mut self.0).poll_shutdown(cx)
+    }
+}
+
+/// Client end of an already-upgraded websocket connection.
+#[derive(Debug)]
+pub struct ClientWs(WsBytesFramed<PlainIo>);
+
+impl ClientWs {
+    /// Takes over `io` as a websocket client (no HTTP upgrade).
+    pub fn new(io: DuplexStream) -> Self {
+        Self(WsBytesFramed {
+            io: tokio_websockets::ClientBuilder::new()
+                .limits(tokio_websockets::Limits::default().max_payload_len(Some(MAX_FRAME_SIZE)))
+                .take_over(PlainIo(io)),
+        })
+    }
+
+    /// Runs the real client side of the relay handshake.
+    pub async fn handshake(&mut self, secret_key: &SecretKey) -> Result<(), handshake::Error> {
+        handshake::clientside(&mut self.0, secret_key).await.map(|_| ())
+    }
+
+    /// Sends one binary frame and flushes.
+    pub async fn send_frame(&mut self, frame: Bytes) -> Result<(), StreamError> {
+        self.0.send(frame).await
+    }
+
+    /// Receives the next binary frame (`None` = closed).
+    pub async fn recv_frame(&mut self) -> Option<Result<Bytes, StreamError>> {
+        self.0.next().await
+    }
+
+    /// Closes the websocket.
+    pub async fn close(&mut self) -> Result<(), StreamError> {
+        self.0.close().await
+    }
+}
